@@ -75,7 +75,9 @@ JudgeDefs_(e, F, P, B, rep, t, L) ==
 JudgePairT_(e, F, P, B, rep, t, L, twin) ==
     /\ Check(e, "IntersectionBlocks", RowBlocksOK(e.row, t))
     /\ Check(e, "GenotypeDiffsAreDefinition", RowDGOK(e.row, t))
-    /\ (IF e.mav THEN TRUE ELSE JudgeDefs_(e, F, P, B, rep, t, L))
+    \* (the definitions of Compare.tla compare alleles with #, so they apply to alleles 0..2 as they stand; only the DIPLOID
+    \*  multi-allelic path of compare is known to deviate - KNOWN_FINDINGS - and is judged by the definition-free clauses)
+    /\ (IF e.mav /\ P = 2 THEN TRUE ELSE JudgeDefs_(e, F, P, B, rep, t, L))
     /\ Check(e, "SwitchFlipIdentity",
              P = 2 => (e.row.sw = e.row.sfs + 2 * e.row.sff /\ e.lrow.sw = e.lrow.sfs + 2 * e.lrow.sff))
     /\ Check(e, "ZeroForIdentical", F[1] = F[2] => (ErrZero(e.row) /\ ErrZero(e.lrow)))
